@@ -1,10 +1,57 @@
-(* C03 — output independent of chunking, pausing and resuming.  Statements only. *)
+(* C03 — output independent of chunking, pausing and resuming.  Statements only.
+
+   FULL STATEMENT (not proved as such): for the html5ever tokenizer + driver + tree builder, every feed schedule over
+   the same input, with any exact_errors setting, yields the same tokens, parse errors, line numbers and tree.
+
+   WHAT IS PROVED: the statement for the tokenizer's REFERENCE semantics (the TokIR interpreter over a flat queue),
+   exact_errors = true, for the table REGENERATED from html5ever/src/tokenizer/mod.rs on every run, including script
+   pauses with injected text and EncodingIndicator suspensions: the whole machine reached (token stream with parse
+   errors and line numbers, tokenizer configuration, unread input) is the same for any two chunkings of the same
+   input.  The theorem is generic: it holds for every table whose arm bodies have the shapes checked by
+   [shape]/[no_eof] (reads first; a suspending arm only re-arranges look-ahead).
+   NOT PROVED (tied by differential runs in the check): (a) the chunked-queue interpreter with bulk reads and
+   exact_errors = false agrees with the reference semantics up to merging of adjacent character tokens;
+   (b) the Rust tokenizer agrees with the chunked-queue interpreter; (c) the tree-builder half. *)
 From Coq Require Import List NArith Bool.
-From HV Require Import TokIR.IR TokIR.Interp TokIR.Checks Gen.GenHtmlTok Inst.InstHtmlTok.
+From HV Require Import TokIR.IR TokIR.Interp TokIR.Checks TokIR.Chunk Gen.GenHtmlTok Inst.InstHtmlTok Inst.InstChunk.
 Import ListNotations.
 
-(* in every state of the regenerated html table, no command precedes a read: a step that suspends for lack of
-   input has had no effect other than the read itself (the premise of the suspend/resume argument) *)
+Theorem C03_reference_semantics_chunk_independent_partial :
+  forall simd ent c1 sk inj cs1 cs2 m m1 m2,
+  all_nonempty cs1 -> all_nonempty cs2 -> cs1 <> [] -> cs2 <> [] -> concat cs1 = concat cs2 ->
+  feed_chunks html_flavour true html_table simd ent c1 sk inj m cs1 m1 ->
+  feed_chunks html_flavour true html_table simd ent c1 sk inj m cs2 m2 -> m1 = m2.
+Proof. exact html_chunking_independent. Qed.
+Print Assumptions C03_reference_semantics_chunk_independent_partial.
+
+(* the run relation used above is the fuelled executable loop of the interpreter (html: no side condition) *)
+Theorem C03_run_relation_is_the_executable_loop :
+  forall simd ent c1 sk fuel m m' r,
+  run [] fq_next fq_peek (@app N) (fun q => q) fq_run1 html_flavour true html_table simd ent c1 sk false fuel m = (m', r) ->
+  oruns html_flavour true html_table simd ent c1 sk m m' r \/ r = SPanic 98.
+Proof. exact html_run_is_relation. Qed.
+Print Assumptions C03_run_relation_is_the_executable_loop.
+
+(* every arm body of the regenerated table has a shape the suspend/resume argument covers *)
+Theorem C03_table_shapes : (forall s, shape html_flavour (html_step s) = true) /\ (forall s, no_eof (html_step s) = true).
+Proof. split; [exact html_shape_all|exact html_no_eof_all]. Qed.
+Print Assumptions C03_table_shapes.
+
 Theorem C03_reads_first : reads_first html_table = [].
 Proof. exact html_reads_first. Qed.
 Print Assumptions C03_reads_first.
+
+(* non-vacuity: a concrete run of the executable interpreter ("<a>x", data state) is an instance of the relation *)
+Definition C03_m0 : mach hstate (list N) := mkmach (init_cfg HData None false) [60; 97; 62; 120]%N [] 0%N.
+Example C03_nonvacuous :
+  exists m', oruns html_flavour true html_table (simd_first_guard, simd_tail_stop, simd_tail_newline)
+                   (fun _ => None) (fun _ => None) {| sk_resp := []; sk_foreign := false |} C03_m0 m' SSuspend.
+Proof.
+  pose (res := run [] fq_next fq_peek (@app N) (fun q => q) fq_run1 html_flavour true html_table
+                   (simd_first_guard, simd_tail_stop, simd_tail_newline) (fun _ => None) (fun _ => None)
+                   {| sk_resp := []; sk_foreign := false |} false 100 C03_m0).
+  assert (E : res = (fst res, snd res)) by (destruct res; reflexivity).
+  assert (Er : snd res = SSuspend) by (vm_compute; reflexivity).
+  destruct (html_run_is_relation _ _ _ _ _ _ _ _ E) as [H|H]; [|rewrite Er in H; discriminate].
+  rewrite Er in H. eexists. exact H.
+Qed.
